@@ -190,6 +190,7 @@ def run(ck):
 
     narrowing_len_sweep(ck, crate("rs", "concordium_base"), re.compile(r"concordium_base::sigma_protocols::"), re.compile(r"(verify|extract_commit_message)[a-z_0-9]*(::\\{closure#\\d+\\})*$"))
 
+    eq_polarity_sweep(ck, crate("rs", "concordium_base"), re.compile(r"concordium_base::sigma_protocols::"), re.compile(r"(verify|extract_commit_message)[a-z_0-9]*(::\\{closure#\\d+\\})*$"))
 
 
 def freeze():
